@@ -130,6 +130,7 @@ PROPS['C10'] = {
     'oracles': {'knowledge_base.rs::get_rule': 'c10_clause', 's_complex.rs::make_query': 'c10_clause', 's_complex.rs::make_complex': 'c10_clause',
                 'rule.rs::Rule::recreate_variables': 'c10_clause', '*': 'c10_rename'},
     'not_covered': [
+        'PROVED since 8.30: the ids handed out by one use of a clause or query all lie above the value the id counter had when the use began and up to its value when it ended (#ids_fresh, through the whole renaming family; get_rule: `all_fresh`), the counter being modelled as ghost state that next_id moves up by one (T9; Kani harness c10_counter_contract checks next_id itself); unify introduces no id of its own (#no_new_ids). NOT proved: that the search rewinds the counter only when the ids given back are referenced by nothing (8.29) - the last link of "no fresh variable is in use elsewhere in the current search"',
         "'different names get different ids' and 'no fresh variable is in use elsewhere': ids come from next_id(); its counter contract (successive, non-zero, increasing) is proved by Kani, the composition with the map invariant is not machine-checked",
         'the fallback_id restore in the clause loop of next_solution (solver, outside reach)',
         'get_rule: which vector the HashMap returns for a &str key is vstd\'s uninterpreted maps_borrowed_key_to_value (no String/str key axiom in vstd); the contract says the result is the renamed index-th rule of that vector',
@@ -340,5 +341,6 @@ TRUSTED_TEXT = {
     'T3': 'assumed specifications for std string/char primitives (listed individually)',
     'T4': 'extractor rewrite rules R1-R15 (syntactic; counts per rule reported in coverage.rewrites)',
     'T5': 'Verus 0.2026.09.13 + its Z3; rustc front end',
+    'T9': 'the id counter LOGIC_VAR_ID (static mut, outside Verus) as ghost state `ids` passed along by the functions that touch it (spec/counter_state.rs): changed only by next_id (+1, returns the new value), set_var_id, clear_id / start_query',
     'T8': 'the node heap (spec/solver.rs): Rc<RefCell<SolutionNode>> accesses as accessor calls on one ghost heap passed along (R15); Rc::clone keeps identity; a field access through a RefMut touches that field of that node only; the raw-pointer writes of set_no_backtracking set no_backtracking flags only',
 }
